@@ -361,9 +361,13 @@ def r_stateless(c):
         J1, J2 = rng.normal(size=(m, 3)), rng.normal(size=(m, 3))
         A, Bg = _agg_from_c11(c, m), _agg_from_c11(c, m)
         torch.manual_seed(1)
-        A(t64(J1))
-        torch.manual_seed(2)
-        oa = A(t64(J2)).numpy()
+        try:
+            A(torch.tensor(J1, dtype=torch.float32) if c.get("other_dtype") else t64(J1))
+            torch.manual_seed(2)
+            oa = A(t64(J2)).numpy()
+        except Exception as e:  # noqa
+            bad.append(f"trial {trial}: raised {type(e).__name__}: {e}")
+            continue
         torch.manual_seed(2)
         ob = Bg(t64(J2)).numpy()
         if not close(oa, ob, 1e-6):
